@@ -24,8 +24,8 @@ func checkC15(w *World, r *Recorder) propInfo {
 		Rule:        "one obligation per header cell, per loop-entry state, per walker skip edge, per writer",
 		Trusted:     []string{"go/types+go/ssa", "interval engine (bit masks, shifts, byte conversions, big-endian models)", "RFC 8949 major-type-5 header table (spec)"},
 	}
-	enc := w.Enc
-	sf := w.NamedType(enc, "structFieldsCBOR")
+	_ = w.Enc
+	sf := w.encMapType("CBOR")
 	if sf == nil {
 		r.Undecide("C15-anchor", "structFieldsCBOR", "-", "type not found")
 		return info
@@ -428,7 +428,7 @@ func c15Compose(w *World, r *Recorder, sf *types.Named) {
 // ---- H4 ----
 
 func c15Walker(w *World, r *Recorder, name string) {
-	fn := w.Enc.Func(name)
+	fn := w.encWalker(name)
 	if fn == nil {
 		r.Undecide("C15-H4", name, "-", "walker not found")
 		return
@@ -501,6 +501,23 @@ func c15Walker(w *World, r *Recorder, name string) {
 				if c, ok := in.(*ssa.Call); ok && strings.HasPrefix(calleeName(&c.Call), "slices.Contains[") && len(c.Call.Args) == 2 {
 					if k, ok := c.Call.Args[1].(*ssa.Const); ok && k.Value != nil && constStringVal(k) == "omitempty" {
 						omitPhi = c
+					}
+				}
+			}
+		}
+	}
+	if omitPhi == nil {
+		// handed back by an in-repo tag-parsing helper: a bool result or field
+		for b := range li.blocks {
+			for _, in := range b.Instrs {
+				v, isV := in.(ssa.Value)
+				if !isV || !isBoolType(v.Type()) {
+					continue
+				}
+				switch v.(type) {
+				case *ssa.Extract, *ssa.Field, *ssa.UnOp:
+					if ok, _ := omitDefinition(v); ok {
+						omitPhi = v
 					}
 				}
 			}
@@ -736,20 +753,166 @@ func isOmitTest(ifi *ssa.If, omitPhi ssa.Value) bool {
 // omitDefinition: every true-valued edge of the φ comes from a block
 // dominated by the true edge of `option == "omitempty"` where option is an
 // element of Split(tag, ",")[1:].
-func omitDefinition(v ssa.Value) (bool, string) {
+func omitDefinition(v ssa.Value) (bool, string) { return omitDefinitionDepth(v, 0) }
+
+// omitDefinitionDepth: v is true exactly when some option after the key of the
+// tag equals "omitempty". Accepted definitions: a φ over constants whose true
+// edges are guarded by option == "omitempty" for option ranging over
+// Split(tag, ",")[1:]; slices.Contains(Split(tag, ",")[1:], "omitempty"); the
+// same computed by an in-repo tag-parsing helper and handed back as one of its
+// results or as a field of the struct it returns.
+func omitDefinitionDepth(v ssa.Value, depth int) (bool, string) {
 	if v == nil {
 		return false, "no isOmitEmpty variable found"
 	}
-	if c, ok := v.(*ssa.Call); ok {
-		if strings.HasPrefix(calleeName(&c.Call), "slices.Contains[") && len(c.Call.Args) == 2 && optionsAfterKey(c.Call.Args[0]) {
+	if depth > 3 {
+		return false, "definition of the omitempty flag is nested too deeply"
+	}
+	switch x := v.(type) {
+	case *ssa.Call:
+		if strings.HasPrefix(calleeName(&x.Call), "slices.Contains[") && len(x.Call.Args) == 2 && optionsAfterKey(x.Call.Args[0]) {
 			return true, ""
 		}
 		return false, "the flag is not slices.Contains(Split(tag, \",\")[1:], \"omitempty\")"
+	case *ssa.Extract:
+		c, ok := x.Tuple.(*ssa.Call)
+		if !ok {
+			break
+		}
+		h := c.Call.StaticCallee()
+		if h == nil || h.Blocks == nil {
+			break
+		}
+		n := 0
+		for _, b := range h.Blocks {
+			if ret, ok := b.Instrs[len(b.Instrs)-1].(*ssa.Return); ok && x.Index < len(ret.Results) {
+				n++
+				if ok, why := omitDefinitionDepth(ret.Results[x.Index], depth+1); !ok {
+					return false, "in " + h.Name() + ": " + why
+				}
+			}
+		}
+		return n > 0, "helper without return"
+	case *ssa.Field:
+		if c, ok := x.X.(*ssa.Call); ok {
+			return omitFieldOfHelper(c, x.Field, depth)
+		}
+	case *ssa.UnOp:
+		// load of a field of a local copy of the helper's result
+		if fa, ok := x.X.(*ssa.FieldAddr); ok && x.Op == token.MUL {
+			if al, ok := fa.X.(*ssa.Alloc); ok {
+				var src ssa.Value
+				n := 0
+				for _, ref := range *al.Referrers() {
+					if st, ok := ref.(*ssa.Store); ok && st.Addr == ssa.Value(al) {
+						src = st.Val
+						n++
+					}
+				}
+				if c, ok := src.(*ssa.Call); ok && n == 1 {
+					return omitFieldOfHelper(c, fa.Field, depth)
+				}
+			}
+		}
+	case *ssa.Phi:
+		return omitPhiDefinition(x)
 	}
-	phi, ok := v.(*ssa.Phi)
-	if !ok {
-		return false, "unrecognised definition of the omitempty flag"
+	return false, "unrecognised definition of the omitempty flag"
+}
+
+// omitFieldOfHelper: field f of the struct returned by the in-repo call c is
+// the omitempty flag: in the helper the struct is a local whose field f is
+// stored only the constant false or, under the option == "omitempty" guard,
+// the constant true.
+func omitFieldOfHelper(c *ssa.Call, f int, depth int) (bool, string) {
+	h := c.Call.StaticCallee()
+	if h == nil || h.Blocks == nil {
+		return false, "the flag comes from a call that cannot be resolved"
 	}
+	nTrue := 0
+	for _, b := range h.Blocks {
+		ret, ok := b.Instrs[len(b.Instrs)-1].(*ssa.Return)
+		if !ok || len(ret.Results) != 1 {
+			continue
+		}
+		ld, ok := ret.Results[0].(*ssa.UnOp)
+		if !ok || ld.Op != token.MUL {
+			return false, "in " + h.Name() + ": the struct returned is not a local variable"
+		}
+		al, ok := ld.X.(*ssa.Alloc)
+		if !ok {
+			return false, "in " + h.Name() + ": the struct returned is not a local variable"
+		}
+		for _, ref := range *al.Referrers() {
+			switch y := ref.(type) {
+			case *ssa.Store:
+				if y.Addr == ssa.Value(al) {
+					return false, "in " + h.Name() + ": the struct is assigned as a whole"
+				}
+			case *ssa.FieldAddr:
+				if y.Field != f {
+					continue
+				}
+				for _, r2 := range *y.Referrers() {
+					st, ok := r2.(*ssa.Store)
+					if !ok {
+						continue
+					}
+					k, ok := st.Val.(*ssa.Const)
+					if !ok || k.Value == nil {
+						return false, "in " + h.Name() + ": non-constant definition of the flag"
+					}
+					if !constant.BoolVal(k.Value) {
+						continue
+					}
+					nTrue++
+					if !guardedByOmitemptyOption(h, st.Block()) {
+						return false, "in " + h.Name() + ": the flag is set without the option == \"omitempty\" guard over Split(tag, \",\")[1:]"
+					}
+				}
+			}
+		}
+	}
+	if nTrue == 0 {
+		return false, "in " + h.Name() + ": the flag is never set"
+	}
+	return true, ""
+}
+
+// guardedByOmitemptyOption: blk is entered only through the equal edge of
+// option == "omitempty", option being an element of Split(…, ",")[1:].
+func guardedByOmitemptyOption(fn *ssa.Function, blk *ssa.BasicBlock) bool {
+	for _, b := range fn.Blocks {
+		ifi, isIf := b.Instrs[len(b.Instrs)-1].(*ssa.If)
+		if !isIf {
+			continue
+		}
+		bo, isBin := ifi.Cond.(*ssa.BinOp)
+		if !isBin || bo.Op != token.EQL {
+			continue
+		}
+		k, isK := bo.Y.(*ssa.Const)
+		opt := bo.X
+		if !isK {
+			k, isK = bo.X.(*ssa.Const)
+			opt = bo.Y
+		}
+		if !isK || k.Value == nil || k.Value.Kind() != constant.String || constStringVal(k) != "omitempty" {
+			continue
+		}
+		// opt = element of a slice x[1:] of a strings.Split result
+		if ld, isLd := opt.(*ssa.UnOp); isLd {
+			if ia, isIA := ld.X.(*ssa.IndexAddr); isIA && optionsAfterKey(ia.X) {
+				if edgeDominates(b, 0, blk) || b.Succs[0] == blk {
+					return true
+				}
+			}
+		}
+	}
+	return false
+}
+
+func omitPhiDefinition(phi *ssa.Phi) (bool, string) {
 	nTrue := 0
 	for i, e := range phi.Edges {
 		c, ok := e.(*ssa.Const)
@@ -760,44 +923,7 @@ func omitDefinition(v ssa.Value) (bool, string) {
 			continue
 		}
 		nTrue++
-		pred := phi.Block().Preds[i]
-		ok = false
-		for _, b := range phi.Parent().Blocks {
-			ifi, isIf := b.Instrs[len(b.Instrs)-1].(*ssa.If)
-			if !isIf {
-				continue
-			}
-			bo, isBin := ifi.Cond.(*ssa.BinOp)
-			if !isBin || bo.Op != token.EQL {
-				continue
-			}
-			k, isK := bo.Y.(*ssa.Const)
-			opt := bo.X
-			if !isK {
-				k, isK = bo.X.(*ssa.Const)
-				opt = bo.Y
-			}
-			if !isK || constStringVal(k) != "omitempty" {
-				continue
-			}
-			// opt = element of a slice x[1:] of a strings.Split result
-			if ld, isLd := opt.(*ssa.UnOp); isLd {
-				if ia, isIA := ld.X.(*ssa.IndexAddr); isIA {
-					if sl, isSl := ia.X.(*ssa.Slice); isSl {
-						if lo, isLo := sl.Low.(*ssa.Const); isLo && lo.Value != nil {
-							if v, _ := constant.Int64Val(lo.Value); v == 1 {
-								if call, isCall := sl.X.(*ssa.Call); isCall && calleeName(&call.Call) == "strings.Split" {
-									if edgeDominates(b, 0, pred) || b.Succs[0] == pred {
-										ok = true
-									}
-								}
-							}
-						}
-					}
-				}
-			}
-		}
-		if !ok {
+		if !guardedByOmitemptyOption(phi.Parent(), phi.Block().Preds[i]) {
 			return false, "a true definition is not guarded by option == \"omitempty\" over Split(tag, \",\")[1:]"
 		}
 	}
@@ -851,7 +977,7 @@ func classifySkip(w *World, b *ssa.BasicBlock, ifi *ssa.If, succ int, omitPhi ss
 	switch x := cond.(type) {
 	case *ssa.Call:
 		cn := calleeName(&x.Call)
-		if f := x.Call.StaticCallee(); f != nil && f.Name() == "collectEmbedded" && succ == 0 {
+		if f := x.Call.StaticCallee(); f != nil && isEmbedCollector(f) && succ == 0 {
 			return "embedded"
 		}
 		if cn == "(reflect.Value).IsZero" && succ == 0 && !populate {
@@ -884,15 +1010,31 @@ func classifySkip(w *World, b *ssa.BasicBlock, ifi *ssa.If, succ int, omitPhi ss
 // ---- H5 ----
 
 func c15DupKey(w *World, r *Recorder, sf *types.Named) {
-	fn := w.MethodImpl(sf, "unmarshalKeyValue")
 	add := w.MethodImpl(sf, "Add")
+	// the entry reader, by role: the in-repo function (other than Add) that
+	// calls the ordered map's Add with a decoded key
+	var fn *ssa.Function
+	if add != nil {
+		for _, f := range w.Funcs {
+			if f == add || f.Blocks == nil || !strings.Contains(fnKey(f), sf.Obj().Name()) {
+				continue
+			}
+			for _, b := range f.Blocks {
+				for _, in := range b.Instrs {
+					if c, ok := in.(*ssa.Call); ok && c.Call.StaticCallee() == add {
+						fn = f
+					}
+				}
+			}
+		}
+	}
 	if fn == nil || add == nil {
-		r.Undecide("C15-H5", "unmarshalKeyValue", "-", "not found")
+		r.Undecide("C15-H5", "entry reader", "-", "no method of the CBOR ordered map that hands decoded entries to Add found")
 		return
 	}
 	s := w.SummariseWith(fn, func(e *Engine) { e.NoInline = map[*ssa.Function]bool{add: true} })
 	if ok, why := s.Complete(); !ok {
-		r.Undecide("C15-H5", "unmarshalKeyValue", w.FnPos(fn), why)
+		r.Undecide("C15-H5", "entry reader", w.FnPos(fn), why)
 		return
 	}
 	ok := true
@@ -936,11 +1078,32 @@ func c15DupKey(w *World, r *Recorder, sf *types.Named) {
 
 func c15Writers(w *World, r *Recorder) {
 	eff := w.Effects()
-	allowed := map[string]map[string]bool{
-		"structFieldsCBOR.Keys":   {"Add": true, "Delete": true},
-		"structFieldsCBOR.Fields": {"FromCBOR": true, "newStructFieldsCBOR": true},
-		"structFieldsJSON.Keys":   {"Add": true, "Delete": true, "unmarshalKeys": true},
-		"structFieldsJSON.Fields": {"newStructFieldsJSON": true, "FromJSON": true},
+	// the key list and the field map of an ordered raw map are assigned only by
+	// the type's own methods and by its constructor (a function returning a
+	// pointer to it): nothing else can put them out of step
+	fieldsOf := map[string]*types.Named{}
+	for _, codec := range []string{"CBOR", "JSON"} {
+		t := w.encMapType(codec)
+		if t == nil {
+			r.Undecide("C15-H6", "structFields"+codec, "-", "ordered raw-map type not found")
+			continue
+		}
+		fieldsOf[t.Obj().Name()+".Keys"] = t
+		fieldsOf[t.Obj().Name()+".Fields"] = t
+	}
+	own := func(fn *ssa.Function, t *types.Named) bool {
+		if rv := fn.Signature.Recv(); rv != nil {
+			if n, ok := derefType(rv.Type()).(*types.Named); ok && n.Obj() == t.Obj() {
+				return true
+			}
+		}
+		res := fn.Signature.Results()
+		for i := 0; i < res.Len(); i++ {
+			if n, ok := derefType(res.At(i).Type()).(*types.Named); ok && n.Obj() == t.Obj() {
+				return true
+			}
+		}
+		return false
 	}
 	seen := map[string]map[string]bool{}
 	for _, fn := range w.Funcs {
@@ -949,19 +1112,19 @@ func c15Writers(w *World, r *Recorder) {
 			continue
 		}
 		for _, s := range ef.Sites {
-			if al, ok := allowed[s.Field]; ok {
+			if t, ok := fieldsOf[s.Field]; ok {
 				if seen[s.Field] == nil {
 					seen[s.Field] = map[string]bool{}
 				}
 				seen[s.Field][baseName(fn)] = true
-				if !al[baseName(fn)] && s.What == "store" {
-					r.Refute("C15-H6", "writer:"+s.Field+"@"+fnKey(fn), w.InstrPos(s.Instr), fnKey(fn)+" assigns "+s.Field+": the key list and the field map can get out of step")
+				if !own(fn, t) && s.What == "store" {
+					r.Refute("C15-H6", "writer:"+canonicalField(s.Field, t)+"@"+fnKey(fn), w.InstrPos(s.Instr), fnKey(fn)+" assigns "+s.Field+" although it is neither a method nor the constructor of "+t.Obj().Name()+": the key list and the field map can get out of step")
 				}
 			}
 		}
 	}
 	var fields []string
-	for f := range allowed {
+	for f := range fieldsOf {
 		fields = append(fields, f)
 	}
 	sort.Strings(fields)
@@ -971,8 +1134,19 @@ func c15Writers(w *World, r *Recorder) {
 			ws = append(ws, n)
 		}
 		sort.Strings(ws)
-		r.Prove("C15-H6", "writers:"+f, "-", "assigned only by "+strings.Join(ws, ", "), len(ws) > 0)
+		r.Prove("C15-H6", "writers:"+canonicalField(f, fieldsOf[f]), "-", "assigned only by the type's own "+strings.Join(ws, ", "), len(ws) > 0)
 	}
+}
+
+// canonicalField keys a field obligation independently of the type's name.
+func canonicalField(f string, t *types.Named) string {
+	codec := "CBOR"
+	for i := 0; i < t.NumMethods(); i++ {
+		if t.Method(i).Name() == "ToJSON" {
+			codec = "JSON"
+		}
+	}
+	return "structFields" + codec + strings.TrimPrefix(f, t.Obj().Name())
 }
 
 // ---- H7 ----
@@ -980,7 +1154,7 @@ func c15Writers(w *World, r *Recorder) {
 func c15Order(w *World, r *Recorder) {
 	eff := w.Effects()
 	for _, tn := range []string{"structFieldsCBOR", "structFieldsJSON"} {
-		t := w.NamedType(w.Enc, tn)
+		t := w.encMapType(strings.TrimPrefix(tn, "structFields"))
 		if t == nil {
 			r.Undecide("C15-H7", tn, "-", "not found")
 			continue
@@ -1055,4 +1229,127 @@ func optionsAfterKey(v ssa.Value) bool {
 	}
 	call, ok := sl.X.(*ssa.Call)
 	return ok && calleeName(&call.Call) == "strings.Split"
+}
+
+// ---- anchors by role ----
+
+// encEntry: the exported entry point behind a canonical walker name.
+var encEntry = map[string]string{
+	"doSerializeStructToCBOR":  "SerializeStructToCBOR",
+	"doSerializeStructToJSON":  "SerializeStructToJSON",
+	"doPopulateStructFromCBOR": "PopulateStructFromCBOR",
+	"doPopulateStructFromJSON": "PopulateStructFromJSON",
+}
+
+// encWalker resolves the struct walker named canonically (today's name) by
+// role: the function reachable from the exported entry point through static
+// calls inside the encoding package (depth <= 3) that loops over
+// reflect.Type.NumField(). The canonical name stays the obligation key.
+func (w *World) encWalker(canonical string) *ssa.Function {
+	if f := w.Enc.Func(canonical); f != nil {
+		return f
+	}
+	entry := w.Enc.Func(encEntry[canonical])
+	if entry == nil {
+		return nil
+	}
+	hasFieldLoop := func(f *ssa.Function) bool {
+		for _, b := range f.Blocks {
+			for _, in := range b.Instrs {
+				if c, ok := in.(*ssa.Call); ok && strings.HasSuffix(calleeName(&c.Call), ").NumField") {
+					return true
+				}
+			}
+		}
+		return false
+	}
+	seen := map[*ssa.Function]bool{entry: true}
+	level := []*ssa.Function{entry}
+	for depth := 0; depth < 3; depth++ {
+		var next []*ssa.Function
+		for _, f := range level {
+			for _, b := range f.Blocks {
+				for _, in := range b.Instrs {
+					c, ok := in.(*ssa.Call)
+					if !ok {
+						continue
+					}
+					g := c.Call.StaticCallee()
+					if g == nil || seen[g] || g.Blocks == nil || g.Pkg != w.Enc {
+						continue
+					}
+					seen[g] = true
+					if hasFieldLoop(g) {
+						return g
+					}
+					next = append(next, g)
+				}
+			}
+		}
+		level = next
+	}
+	return nil
+}
+
+// encMapType: the ordered raw-map type of a codec ("CBOR" / "JSON"), by role:
+// the named struct type of the encoding package that has an Add method and to
+// which the walker of that codec takes a pointer.
+func (w *World) encMapType(codec string) *types.Named {
+	if t := w.NamedType(w.Enc, "structFields"+codec); t != nil {
+		return t
+	}
+	wk := w.encWalker("doSerializeStructTo" + codec)
+	if wk == nil {
+		return nil
+	}
+	for _, prm := range wk.Params {
+		pt, ok := prm.Type().Underlying().(*types.Pointer)
+		if !ok {
+			continue
+		}
+		n, ok := pt.Elem().(*types.Named)
+		if !ok || n.Obj().Pkg() == nil || n.Obj().Pkg() != w.Enc.Pkg {
+			continue
+		}
+		if m, _ := w.DeclaredMethod(n, "Add"); m != nil {
+			return n
+		}
+	}
+	return nil
+}
+
+// isEmbedRecord: a struct type pairing a reflect.Type with a reflect.Value —
+// the record under which an embedded struct is remembered for the recursion.
+func isEmbedRecord(t types.Type) bool {
+	st, ok := t.Underlying().(*types.Struct)
+	if !ok {
+		return false
+	}
+	hasT, hasV := false, false
+	for i := 0; i < st.NumFields(); i++ {
+		switch st.Field(i).Type().String() {
+		case "reflect.Type":
+			hasT = true
+		case "reflect.Value":
+			hasV = true
+		}
+	}
+	return hasT && hasV
+}
+
+// isEmbedCollector, by role: a function with a body that reports (bool)
+// whether a field is an embedded struct and is handed the address of the list
+// of embed records to extend.
+func isEmbedCollector(f *ssa.Function) bool {
+	if f.Blocks == nil || f.Signature.Results().Len() != 1 || !isBoolType(f.Signature.Results().At(0).Type()) {
+		return false
+	}
+	for _, prm := range f.Params {
+		if pt, ok := prm.Type().Underlying().(*types.Pointer); ok {
+			if sl, ok := pt.Elem().Underlying().(*types.Slice); ok && isEmbedRecord(sl.Elem()) {
+				return true
+			}
+		}
+	}
+	return false
 }
